@@ -85,7 +85,7 @@ func TestRaceStress(t *testing.T) {
 		p := &Plan{Seed: r.Uint64(), Cfg: Config{Dense: 64, WitKeys: []string{"ed:0", "cosig:0"}}}
 		nl := r.Range(1, 3)
 		for i := 0; i < nl; i++ {
-			p.Cfg.Logs = append(p.Cfg.Logs, LogCfg{Origin: fmt.Sprintf("sim.example/race%d", i), Key: i, Forks: []ForkCfg{{Parent: 0, At: uint64(r.IntN(3))}}})
+			p.Cfg.Logs = append(p.Cfg.Logs, LogCfg{Origin: fmt.Sprintf("sim.example/race%d", (int(round)*3+i)%48), Key: i, Forks: []ForkCfg{{Parent: 0, At: uint64(r.IntN(3))}}})
 		}
 		w := NewWorld(p)
 		var inner persistence.LogStatePersistence
@@ -248,6 +248,7 @@ func backendDisagreement() string {
 	}
 	rec := recorder.Snapshot()
 	compared := 0
+	seen := map[string]bool{}
 	for _, mf := range mfs {
 		for _, m := range mf.GetMetric() {
 			if m.GetCounter() == nil || len(m.GetLabel()) != 1 {
@@ -255,9 +256,21 @@ func backendDisagreement() string {
 			}
 			key := strings.TrimPrefix(mf.GetName(), "verifsim_") + "|" + m.GetLabel()[0].GetValue()
 			compared++
+			seen[key] = true
 			if want, ok := rec[key]; ok && want != m.GetCounter().GetValue() {
 				return fmt.Sprintf("counter %s{%s=%q}: the Prometheus backend holds %v, %v increments were made for that label", mf.GetName(), m.GetLabel()[0].GetName(), m.GetLabel()[0].GetValue(), m.GetCounter().GetValue(), want)
 			}
+		}
+	}
+	// and the other way round: every label that received increments has a series (over the rounds of one process the
+	// counters see up to 48 log IDs - a backend that drops or recycles series beyond some number of labels loses counts)
+	for key, want := range rec {
+		name, label, ok := strings.Cut(key, "|")
+		if !ok || label == "" || strings.Contains(label, "|") || want == 0 {
+			continue
+		}
+		if !seen[key] {
+			return fmt.Sprintf("counter %s{%q}: %v increments were made for that label, the Prometheus backend has no series for it", name, label, want)
 		}
 	}
 	if compared == 0 {
